@@ -7,7 +7,7 @@ import (
 
 // C19 (distance laws): DistanceCmp agrees with byte-wise comparison of XOR distances.
 
-//verif: cover=lt,eq,gt bounds="x,a,b each 0..3 bytes, every content (64 length triples)"
+// verif: cover=lt,eq,gt bounds="x,a,b each 0..3 bytes, every content (64 length triples)"
 func VH_C19_distanceCmpAgrees() bool {
 	x := vBytes(3)
 	a := vBytes(3)
@@ -24,7 +24,7 @@ func VH_C19_distanceCmpAgrees() bool {
 	return got == want
 }
 
-//verif: cover=checked bounds="a,b 0..3 bytes: Distance symmetric, zero iff equal (equal lengths), DistanceLz == LeadingZeros(Distance)"
+// verif: cover=checked bounds="a,b 0..3 bytes: Distance symmetric, zero iff equal (equal lengths), DistanceLz == LeadingZeros(Distance)"
 func VH_C19_distanceLaws() bool {
 	a := vBytes(3)
 	b := vBytes(3)
@@ -43,7 +43,7 @@ func VH_C19_distanceLaws() bool {
 	return ok
 }
 
-//verif: cover=checked bounds="x,a,b,c 0..2 bytes: antisymmetry and transitivity of DistanceLt"
+// verif: cover=checked bounds="x,a,b,c 0..2 bytes: antisymmetry and transitivity of DistanceLt"
 func VH_C19_distanceOrder() bool {
 	x := vBytes(2)
 	a := vBytes(2)
@@ -93,7 +93,7 @@ func vBuildCache(locus []byte, n int, klen int) (*Cache[byte], [][]byte) {
 	return c, keys
 }
 
-//verif: unwind=24 cover=max-entries map_perm_max=1 bounds="locus, query key and 0..2 (quick) / 0..3 (thorough) distinct entry keys of 1 byte each, all symbolic: ForEach visits every entry once in non-decreasing XOR distance; Closest is a minimum"
+// verif: unwind=24 cover=max-entries map_perm_max=1 bounds="locus, query key and 0..2 (quick) / 0..3 (thorough) distinct entry keys of 1 byte each, all symbolic: ForEach visits every entry once in non-decreasing XOR distance; Closest is a minimum"
 func VH_C19_forEachNearestFirst() bool {
 	locus := vBytesN(1)
 	n := vInt(0, vMaxEntries())
@@ -143,7 +143,7 @@ func VH_C19_forEachNearestFirst() bool {
 	return true
 }
 
-//verif: unwind=24 cover=some-closer,none-closer map_perm_max=1 bounds="locus, query key and 0..2 (quick) / 0..3 (thorough) distinct entry keys of 1 byte each: ForEachCloser yields exactly the entries nearer to the key than the locus is"
+// verif: unwind=24 cover=some-closer,none-closer map_perm_max=1 bounds="locus, query key and 0..2 (quick) / 0..3 (thorough) distinct entry keys of 1 byte each: ForEachCloser yields exactly the entries nearer to the key than the locus is"
 func VH_C19_forEachCloserExact() bool {
 	locus := vBytesN(1)
 	n := vInt(0, vMaxEntries())
@@ -186,7 +186,7 @@ func VH_C19_forEachCloserExact() bool {
 	return true
 }
 
-//verif: unwind=24 cover=some-match map_perm_max=1 bounds="locus and 0..1 (quick) / 0..2 (thorough) distinct entry keys of 1 byte, prefix 1 byte, nbits 0..8: ForEachMatching yields exactly the entries sharing the first nbits bits with the prefix"
+// verif: unwind=24 cover=some-match map_perm_max=1 bounds="locus and 0..1 (quick) / 0..2 (thorough) distinct entry keys of 1 byte, prefix 1 byte, nbits 0..8: ForEachMatching yields exactly the entries sharing the first nbits bits with the prefix"
 func VH_C19_forEachMatchingExact() bool {
 	locus := vBytesN(1)
 	n := vInt(0, vMaxEntries()-1)
